@@ -175,23 +175,16 @@ Definition divmod_I (a b : Z) : Z * Z :=
     else (q + 1 (* addin(q,1) *), r - b (* r -= b *))
   else (q, r).
 
-(* Integer& Integer::divmod(Integer& q, int64_t& r, const Integer& a, const int64_t b)   -- AS IS *)
+(* Integer& Integer::divmod(Integer& q, int64_t& r, const Integer& a, const int64_t b)
+     r = (int64_t)mpz_tdiv_q_ui(q, a, std::abs(b));
+     if (a<0 && r) { subin(q,(int64_t)1); r = std::abs(b) - r; }      (int64_t arithmetic)
+     if (b<0) negin(q);                                                                   *)
 Definition divmod_l (a b : Z) : Z * Z :=
-  let (q, w) := mpz_tdiv_q_ui a (to_u64 (c_abs64 b)) in
-  let r := to_i64 w in                                   (* r = (int64_t) mpz_tdiv_q_ui(...) *)
-  if andb (a <? 0) (negb (r =? 0)) then (q - 1, to_i64 (b - r))   (* subin(q,1); r = b - r; *)
-  else (q, r).
-
-(* the same body after frag/C02.fix-2.diff:
-     r = (int64_t)((uint64_t)std::abs(b) - (uint64_t)r);   and   if (b < 0) negin(q);  *)
-Definition divmod_l_fixed (a b : Z) : Z * Z :=
   let (q, w) := mpz_tdiv_q_ui a (to_u64 (c_abs64 b)) in
   let r := to_i64 w in
   let (q1, r1) :=
-    if andb (a <? 0) (negb (r =? 0))
-    then (q - 1, to_i64 (to_u64 (to_u64 (c_abs64 b) - to_u64 r)))
-    else (q, r) in
-  (if b <? 0 then - q1 else q1, r1).
+    if andb (a <? 0) (negb (r =? 0)) then (q - 1, to_i64 (c_abs64 b - r)) else (q, r) in
+  (if b <? 0 then - q1 (* negin(q) *) else q1, r1).
 
 (* Integer& Integer::divmod(Integer& q, uint64_t& r, const Integer& a, const uint64_t b) *)
 Definition divmod_ul (a b : Z) : Z * Z :=
@@ -214,14 +207,10 @@ Definition frem_I (n d : Z) : Z := mpz_fdiv_r n d.
 Definition trem_ul (n d : Z) : Z := fst (mpz_tdiv_r_ui n d).
 Definition crem_ul (n d : Z) : Z := fst (mpz_cdiv_r_ui n d).
 Definition frem_ul (n d : Z) : Z := fst (mpz_fdiv_r_ui n d).
-(* uint64_t Integer::trem/crem/frem(const Integer& n, const uint64_t& d)   -- AS IS:
-   trem returns mpz_cdiv_ui, crem returns mpz_tdiv_ui *)
-Definition trem_w (n d : Z) : Z := mpz_cdiv_ui n d.
-Definition crem_w (n d : Z) : Z := mpz_tdiv_ui n d.
+(* uint64_t Integer::trem/crem/frem(const Integer& n, const uint64_t& d) *)
+Definition trem_w (n d : Z) : Z := mpz_tdiv_ui n d.
+Definition crem_w (n d : Z) : Z := mpz_cdiv_ui n d.
 Definition frem_w (n d : Z) : Z := mpz_fdiv_ui n d.
-(* after frag/C02.fix-1.diff (the two primitives exchanged) *)
-Definition trem_w_fixed (n d : Z) : Z := mpz_tdiv_ui n d.
-Definition crem_w_fixed (n d : Z) : Z := mpz_cdiv_ui n d.
 
 (* Integer operator / (const int32_t/int64_t/uint32_t/uint64_t l, const Integer& n) { return Integer(l)/n; } *)
 Definition w_div_I (l n : Z) : Z := op_div_I l n.
@@ -260,20 +249,13 @@ Definition op_modeq_I (this n : Z) : Z :=
 (* Integer& Integer::operator %= (const uint64_t l) *)
 Definition op_modeq_ul (this l : Z) : Z :=
   if isZero this then this else fst (mpz_tdiv_r_ui this l).
-(* Integer& Integer::operator %= (const int64_t l)   -- AS IS: the remainder is negated when l < 0 *)
+(* Integer& Integer::operator %= (const int64_t l) *)
 Definition op_modeq_l (this l : Z) : Z :=
-  if isZero this then this else
-  let sgn := c_sign l in
-  let t1 := fst (mpz_tdiv_r_ui this (to_u64 (c_abs64 l))) in
-  if sgn <? 0 then mpz_neg t1 else t1.
-(* after frag/C02.fix-3.diff (the mpz_neg line removed) *)
-Definition op_modeq_l_fixed (this l : Z) : Z :=
   if isZero this then this else fst (mpz_tdiv_r_ui this (to_u64 (c_abs64 l))).
 (* gmp++_int.h: operator %= (const uint32_t n) { return this->operator%=((uint64_t)n); } *)
 Definition op_modeq_u (this n : Z) : Z := op_modeq_ul this (to_u64 n).
 (* gmp++_int.h: operator %= (const int32_t n) { return this->operator%=((int64_t)n); } *)
 Definition op_modeq_i (this n : Z) : Z := op_modeq_l this (to_i64 n).
-Definition op_modeq_i_fixed (this n : Z) : Z := op_modeq_l_fixed this (to_i64 n).
 (* gmp++_int.h: template<class XXX> operator %=(const XXX& n) { return this->operator %= ( (Integer)n ); } *)
 Definition op_modeq_T (this n : Z) : Z := op_modeq_I this n.
 
@@ -323,15 +305,16 @@ Definition dom_mod (a b : Z) : Z := mod_I a b.
 Definition dom_modin (r b : Z) : Z := modin_I r b.
 Definition dom_divmod (a b : Z) : Z * Z := divmod_I a b.
 Definition dom_divexact (a b : Z) : Z := divexact_q_I a b.
-(* quo(q,a,b) { return Integer::floor(q,a,b); }    -- AS IS *)
-Definition dom_quo (a b : Z) : Z := floor_r a b.
-(* after frag/C02.fix-4.diff:  quo(q,a,b) { Element r; return Integer::divmod(q,r,a,b); } *)
-Definition dom_quo_fixed (a b : Z) : Z := fst (divmod_I a b).
+(* quo(q,a,b): body AFTER frag/C02.fix-1.diff
+     { return (b < 0) ? Integer::ceil(q,a,b) : Integer::floor(q,a,b); }
+   (before the repair the body is `return Integer::floor(q,a,b);` = dom_quo_floor, which disagrees with
+    rem / quoRem for b < 0: lemma quo_floor_inconsistent) *)
+Definition dom_quo (a b : Z) : Z := if b <? 0 then ceil_r a b else floor_r a b.
+Definition dom_quo_floor (a b : Z) : Z := floor_r a b.
 (* rem(r,a,b) { return Integer::mod(r,a,b); } *)
 Definition dom_rem (a b : Z) : Z := mod_I a b.
 (* quoin(a,b) { return quo(a,a,b); }   remin(a,b) { return modin(a,b); } *)
 Definition dom_quoin (a b : Z) : Z := dom_quo a b.
-Definition dom_quoin_fixed (a b : Z) : Z := dom_quo_fixed a b.
 Definition dom_remin (a b : Z) : Z := dom_modin a b.
 (* quoRem(q,r,a,b) { Integer::divmod(q,r,a,b); } *)
 Definition dom_quoRem (a b : Z) : Z * Z := divmod_I a b.
